@@ -22,7 +22,7 @@ CHECKS = {
              'notes, written with ANY positive number of empty lines between its elements and any number of line breaks at its end, '
              'is parsed to exactly the declared database (every element once, in source order, references linked to the named '
              'columns); document_faithful_variants / enums_tables_spelling_inert (C01Case.lean) - element forms that declare the same '
-             'blueprints in another spelling (every element keyword in any letter case, table names bare or quoted) are parsed to the same '
+             'blueprints in another spelling (every element keyword in any letter case; table, enum, group and project names bare or quoted) are parsed to the same '
              'database; built on parseDoc_elems_gaps_end, parseDoc_elems, DocSpec.build; partial: spacing inside an element and the '
              'other element features are left to the correspondence; theorems '
              'about the same model for any text are claimed under C05/C06/C07/C08.',
